@@ -523,6 +523,24 @@ class DataMixin:
         self.seq_set(lst, new)
         return NONE
 
+    def cm_HSymList_remove(self, lst, v):
+        """list.remove(x): removes the first occurrence; ValueError if there is none"""
+        ex = self.ex
+        seq = self.seq_get(lst)
+        t = lower(v, ex)
+        present = z3.Contains(seq, z3.Unit(t))
+        if not ex.branch(present, 'remove:present'):
+            raise PyRaise(self.mkexc('ValueError', 'list.remove(x): x not in list'))
+        pre = ex.fresh('rm_pre', SeqVal)
+        post = ex.fresh('rm_post', SeqVal)
+        ex.assume(seq == z3.Concat(pre, z3.Unit(t), post))
+        ex.assume(z3.Not(z3.Contains(pre, z3.Unit(t))))
+        new = z3.Concat(pre, post)
+        self.fact_concat(seq, [pre, z3.Unit(t), post])
+        self.fact_concat(new, [pre, post])
+        self.seq_set(lst, new)
+        return NONE
+
     def cm_HSymList_pop(self, lst, idx=None):
         ex = self.ex
         seq = self.seq_get(lst)
